@@ -40,6 +40,7 @@ Record nview := mkNV {
   nv_nvidia : bool;          (* /proc/driver/nvidia/gpus can be opened *)
   nv_keep : bool;            (* NVIDIA GPU nodes kept: not POWER, or HWLOC_KEEP_NVIDIA_GPU_NUMA_NODES *)
   nv_gpus : list gpu_files;  (* its entries, readdir order *)
+  nv_pus : bset;             (* the cpuset of the root when look_sysfsnode starts: the PUs that exist *)
   nv_online : file;          (* node/online *)
   nv_dir : option (list (list N));   (* names in /sys/devices/system/node, readdir order; None: cannot be opened *)
   nv_nodes : list node_files }.
@@ -154,6 +155,9 @@ Definition allow_overlap (v : nview) : Z :=
 Definition need_msc (v : nview) : bool := nv_msc v && negb (nv_fake v).
 Definition use_init (v : nview) : bool := nv_init v && negb (nv_fake v).
 
+(* only the CPUs of a cpumap that exist as PUs are kept (when some PU exists), since /repo "linux keeps in a NUMA node cpuset ..." *)
+Definition existing (v : nview) (cs : bset) : bset := if is_zero (nv_pus v) then cs else bs_inter cs (nv_pus v).
+
 (* nodes[] : one slot per index, None when the node was not created; second component: nodes_cpuset *)
 Definition create_nodes (v : nview) (indexes : list N) : list (option (N * bset)) :=
   fst (fold_left (fun '(acc, seen) os =>
@@ -161,7 +165,7 @@ Definition create_nodes (v : nview) (indexes : list N) : list (option (N * bset)
          | None => (acc ++ [None], seen)
          | Some cs =>
              if bs_intersects seen cs && (allow_overlap v =? 0)%Z then (acc ++ [None], seen)
-             else (acc ++ [Some (os, cs)], bs_union seen cs)
+             else (acc ++ [Some (os, existing v cs)], bs_union seen cs)
          end) indexes ([], bs_empty)).
 
 Definition set_nth {A} (l : list A) (i : nat) (x : A) : list A := firstn i l ++ x :: skipn (S i) l.
